@@ -51,7 +51,7 @@ var _ RawRegister32 = ParseTXTSInitBase(0)
 // ReadTXTSInitBase reads a TXTSInitBase register from TXT config
 func ReadTXTSInitBase(data TXTConfigSpace) (TXTSInitBase, error) {
 	var u32 uint32
-	buf := bytes.NewReader(data[TXTSINITBaseRegisterOffset:])
+	buf := bytes.NewReader(data.from(TXTSINITBaseRegisterOffset))
 	err := binary.Read(buf, binary.LittleEndian, &u32)
 	if err != nil {
 		return 0, err
